@@ -5,10 +5,14 @@ time() is a field; when nothing is ready the clock jumps to the next armed timer
 (fail_after / move_on_after) are loop.call_at timers, so they obey this clock.
 
 If the loop has nothing ready and no timer armed while the main coroutine is unfinished, the
-program under test would hang forever: Deadlock is raised instead.
+program under test would hang forever: Deadlock is raised instead.  A loop that keeps arming
+timers without ever finishing (a polling wait whose condition never comes true) is the same
+hang in another shape: `max_iter` bounds the number of loop iterations of one run and
+Deadlock is raised when it is exceeded, so a driver can never spin for ever.
 """
 import asyncio
 import heapq
+import os
 import selectors
 
 
@@ -21,11 +25,17 @@ class VirtualLoop(asyncio.SelectorEventLoop):
         super().__init__(selectors.SelectSelector())
         self._vt = 0.0
         self.max_time = 1e9
+        self.max_iter = None
+        self.iterations = 0
 
     def time(self):
         return self._vt
 
     def _run_once(self):
+        self.iterations += 1
+        if self.max_iter is not None and self.iterations > self.max_iter and not self._stopping:
+            n, self.max_iter = self.max_iter, None       # the runner's clean-up (cancel all tasks) still needs the loop
+            raise Deadlock(f"livelock: more than {n} loop iterations")
         # drop cancelled timers at the head so that the jump target is a live timer
         while self._scheduled and self._scheduled[0]._cancelled:
             self._timer_cancelled_count -= 1
@@ -45,13 +55,47 @@ class VirtualLoop(asyncio.SelectorEventLoop):
         super()._run_once()
 
 
-def run(coro_fn, *args):
+def run(coro_fn, *args, max_iter=None, max_time=None):
     """Run `await coro_fn(*args)` under anyio on a fresh virtual loop."""
     import anyio
 
-    return anyio.run(
-        coro_fn, *args, backend="asyncio", backend_options={"loop_factory": VirtualLoop}
-    )
+    def factory():
+        loop = VirtualLoop()
+        if max_iter is not None:
+            loop.max_iter = max_iter
+        if max_time is not None:
+            loop.max_time = max_time
+        return loop
+
+    loops = []
+
+    def tracked():
+        loops.append(factory())
+        return loops[-1]
+
+    try:
+        return anyio.run(
+            coro_fn, *args, backend="asyncio", backend_options={"loop_factory": tracked}
+        )
+    finally:
+        stats = os.environ.get("VERIF_VLOOP_STATS")      # development aid: iterations per run
+        if stats and loops:
+            with open(stats, "a") as fh:
+                fh.write("%s.%s %d %d\n" % (getattr(coro_fn, "__module__", "?"), getattr(coro_fn, "__qualname__", "?"), loops[-1].iterations, max_iter or 0))
+
+
+async def wait_until(pred, limit, step=0.001):
+    """Poll `pred` every `step` virtual seconds (the waiter resumes in the instant the condition
+    comes true) and give up after `limit` virtual seconds.  Returns whether it came true."""
+    import anyio
+
+    loop = asyncio.get_running_loop()
+    t0 = loop.time()
+    while not pred():
+        if loop.time() - t0 >= limit:
+            return False
+        await anyio.sleep(step)
+    return True
 
 
 async def sleep_until(t):
